@@ -238,6 +238,42 @@ def gen_pending(seed, policy=None):
         yield {"id": [seed, n, lazy], "scn": dict(scn, lazy=lazy, cache=rng.random() < 0.5), "seed": seed, "behaviour": beh, "policy": dict(policy or {})}
 
 
+def gen_loopfan(seed, policy=None):
+    """A trigger LOOP A -> B -> A (closed by a weak edge inside a group, or by a time-shifted edge) with triggering connections
+    fanning OUT of the loop to event-based simulators that never step on their own (C, possibly D behind C or behind B), in every
+    order of making the connections and of starting the simulators; loop members often end a time step WITHOUT emitting.  Whatever
+    bookkeeping decides whose progress is advanced after a step, the outside simulators must be released when the loop falls silent."""
+    rng = random.Random(f"loopfan|{seed}")
+    grouped = rng.random() < 0.5
+    g = [1] if grouped else []
+    sims = [{"sid": "Sa", "type": rng.choice(["hybrid", "time-based"]) if not grouped else "hybrid", "gpath": list(g)},
+            {"sid": "Sb", "type": rng.choice(["event-based", "hybrid"]), "gpath": list(g)},
+            {"sid": "Sc", "type": "event-based", "gpath": list(rng.choice([[], g]))}]
+    back = {"src": "Sb", "dst": "Sa", "sa": "e", "da": "ti" if sims[0]["type"] == "hybrid" else "i"}
+    if grouped and rng.random() < 0.7:
+        back["weak"] = True
+    else:
+        back["shift"] = 1
+        if back["da"] == "i":
+            back.update({"sa": "e", "init": True})
+    fwd_attr = "e" if sims[0]["type"] == "hybrid" else "p"
+    conns = [{"src": "Sa", "dst": "Sb", "sa": fwd_attr, "da": "ti"}, back, {"src": "Sa", "dst": "Sc", "sa": fwd_attr, "da": "ti"}]
+    if rng.random() < 0.5:
+        sims.append({"sid": "Sd", "type": "event-based", "gpath": []})
+        conns.append({"src": rng.choice(["Sc", "Sb"]), "dst": "Sd", "sa": "e", "da": "ti"})
+    if rng.random() < 0.3:
+        conns.append({"src": "Sb", "dst": "Sc", "sa": "e", "da": "ti2"})
+    rng.shuffle(conns)
+    order = [x["sid"] for x in sims]
+    rng.shuffle(order)
+    scn = S.normalize({"sims": sims, "conns": conns, "until": rng.randint(3, 5), "maxloop": 6, "order": order})
+    beh = {"kind": "random", "tb_next": [1], "ev_next": [None, None, 1], "p_event": rng.choice([0.4, 0.6, 0.8]), "p_none": 0.2, "p_future": 0.0}
+    for lazy in (True, False):
+        for j in range(2):
+            yield {"id": [seed, lazy, j], "scn": dict(scn, lazy=lazy, cache=rng.random() < 0.5), "seed": seed * 7 + j, "behaviour": dict(beh, seed=seed * 3 + j),
+                   "policy": dict(policy or {"kind": "random", "early": [0.0, 0.5][j]})}
+
+
 def gen_chain(seed, policy=None):
     """A slow source, an event-based relay whose outputs may be dated into the FUTURE (so it can be idle with nothing
     scheduled although it will be triggered again), and a consumer that also steps on its own."""
@@ -305,7 +341,7 @@ def gen_group5(seed, policy=None):
                "policy": dict(policy or {"kind": "random", "early": [0.2, 0.5, 0.8][j]})}
 
 
-explore.GENERATORS.update({"group5": gen_group5, "rt10": gen_rt10, "c13": gen_c13, "c16": gen_c16, "c09": gen_c09, "paths": gen_paths, "pending": gen_pending, "chain": gen_chain})
+explore.GENERATORS.update({"group5": gen_group5, "rt10": gen_rt10, "c13": gen_c13, "c16": gen_c16, "c09": gen_c09, "paths": gen_paths, "pending": gen_pending, "chain": gen_chain, "loopfan": gen_loopfan})
 
 # --------------------------------------------------------------------------- profiles
 
@@ -317,7 +353,8 @@ PROFILES = {
             # (None, 0, "", False, lists and dictionaries are legal output VALUES: they trigger and travel like any other)
             ("random", {"fam": {"types": ["event-based", "hybrid"], "until": (3, 5), "p_two_entities": 0.4}, "behaviour": {"p_future": 0.5, "future": [0, 1, 2, 3], "p_none": 0.3, "p_event": 0.5}}),
             ("random", {"fam": {"nsims": (8, 11), "nconns": (6, 14), "until": (2, 3), "weak": 0.2}, "frac": 0.08}),
-            ("pending", {"frac": 0.15})],
+            ("pending", {"frac": 0.15}),
+            ("random", {"fam": {"types": ["event-based", "hybrid", "time-based"], "until": (3, 5)}, "behaviour": {"ev_next": [None, 1, 2]}, "transport": "local_gen", "frac": 0.15})],
     "C03": [("random", {"fam": {"shifts": (0, 0, 1, 2, 3), "until": (3, 5), "p_two_entities": 0.4}, "behaviour": {"p_extra": 0.15}}),
             # declared initial data on ordinary connections, first values dated into the future
             ("random", {"fam": {"groups": False, "types": ["hybrid", "hybrid", "time-based"], "until": (3, 5), "p_extra_init": 0.5, "shifts": (0, 0, 1)},
@@ -332,6 +369,7 @@ PROFILES = {
             ("random", {"fam": {"shifts": (0, 1, 2, 3)}, "behaviour": {"p_future": 0.5, "future": [0, 1, 2, 3]}, "policy": {"early": 0.6}}),
             ("paths", {"frac": 0.3}),
             ("pending", {"frac": 0.15}),
+            ("loopfan", {"frac": 0.25}),
             # LARGE simulation times (every first step announces time + jump) and the optional output time = step time
             # (no time-shifted connections here: a shifted trigger cycle would step at every one of the 1000 ticks in between)
             ("random", {"fam": {"weak": 0.6, "until": (2, 4), "shifts": (0,), "selfloops": 0.0, "p_shift_weak": 0.0},
